@@ -206,6 +206,77 @@ func c11(c *core.Ctx) {
 		}
 	}
 
+	rWn := c.Rule("C11.window", "the time-window membership test of the gateway's claim paths is half-open: a boolean helper that compares one integer parameter with two others returns exactly ts >= lower && ts < upper, so that a record whose timestamp equals a caller's exclusive upper bound is left for the caller of the adjacent window", 1)
+	{
+		n := 0
+		for _, f := range p.FuncsIn(pkgGateway) {
+			if f.Decl.Body == nil || f.Decl.Recv != nil {
+				continue
+			}
+			sig := f.Obj.Type().(*types.Signature)
+			if sig.Params().Len() != 3 || sig.Results().Len() != 1 {
+				continue
+			}
+			allInt := true
+			for i := 0; i < 3; i++ {
+				if b, ok := sig.Params().At(i).Type().Underlying().(*types.Basic); !ok || b.Kind() != types.Int64 {
+					allInt = false
+				}
+			}
+			if b, ok := sig.Results().At(0).Type().Underlying().(*types.Basic); !ok || b.Kind() != types.Bool || !allInt {
+				continue
+			}
+			if len(f.Decl.Body.List) != 1 {
+				continue
+			}
+			ret, ok := f.Decl.Body.List[0].(*ast.ReturnStmt)
+			if !ok || len(ret.Results) != 1 {
+				continue
+			}
+			and, ok := core.Unparen(ret.Results[0]).(*ast.BinaryExpr)
+			if !ok || and.Op != token.LAND {
+				continue
+			}
+			info := f.Info()
+			tsP := sig.Params().At(0)
+			type cmp struct {
+				op    token.Token
+				other types.Object
+			}
+			norm := func(e ast.Expr) (cmp, bool) {
+				be, ok := core.Unparen(e).(*ast.BinaryExpr)
+				if !ok {
+					return cmp{}, false
+				}
+				x, y, op := core.ObjOf(info, be.X), core.ObjOf(info, be.Y), be.Op
+				if y == tsP {
+					x, y, op = y, x, mirror(op)
+				}
+				if x != tsP || y == nil {
+					return cmp{}, false
+				}
+				return cmp{op, y}, true
+			}
+			a, ok1 := norm(and.X)
+			b, ok2 := norm(and.Y)
+			if !ok1 || !ok2 {
+				continue
+			}
+			n++
+			c.Touch(f)
+			lower, upper := a, b
+			if a.op == token.LSS || a.op == token.LEQ {
+				lower, upper = b, a
+			}
+			good := lower.op == token.GEQ && upper.op == token.LSS && lower.other != upper.other
+			rWn.Check(good, f.Key+":half-open", ret.Pos(), "ts >= lower && ts < upper",
+				"the window test is ts "+lower.op.String()+" "+lower.other.Name()+" && ts "+upper.op.String()+" "+upper.other.Name()+" instead of the half-open [from, to): a record on a bound is claimed by the wrong window (or by two adjacent ones)")
+		}
+		if n == 0 {
+			rWn.Bad(pkgGateway+":window-test", token.NoPos, "no window membership helper found in the gateway (rule needs review)")
+		}
+	}
+
 	rNR := c.Rule("C11.noresurrect", "a claim never brings a deleted record back: outside the save path a record is (re)inserted into an ordered index of the swamp only inside a guard region on that record after the key index was looked up again (the beacon's own ReindexExpiration re-inserts only keys still present in its key map: C11.repinv) (shared with C07.liveinsert)", 6)
 	liveInsertRule(c, rNR)
 
@@ -569,6 +640,8 @@ func c12(c *core.Ctx) {
 		f := c.Fn(pkgBeacon + ".beacon." + n)
 		info := f.Info()
 		early, lowered := false, false
+		var clampAssign *ast.AssignStmt
+		var limitObj types.Object
 		// the remaining budget: the local defined as <cap maximum parameter> - <current count>
 		sigB := f.Obj.Type().(*types.Signature)
 		capMaxParam := sigB.Params().At(sigB.Params().Len() - 1)
@@ -602,6 +675,7 @@ func c12(c *core.Ctx) {
 					for _, st := range is.Body.List {
 						if as, isAs := st.(*ast.AssignStmt); isAs && core.ObjOf(info, as.Lhs[0]) != nil && core.ObjOf(info, as.Lhs[0]) == core.ObjOf(info, be.Y) && core.ObjOf(info, as.Rhs[0]) == budgetObj {
 							lowered = true
+							clampAssign, limitObj = as, core.ObjOf(info, as.Lhs[0])
 						}
 					}
 				}
@@ -610,6 +684,37 @@ func c12(c *core.Ctx) {
 		})
 		rB.Check(early, f.Key+":budget<=0-returns", f.Decl.Pos(), "no selection when the budget is exhausted", "selection runs although the cap budget is exhausted")
 		rB.Check(lowered, f.Key+":limit<=budget", f.Decl.Pos(), "limit lowered to the budget", "the effective limit is not capped by the remaining budget")
+		// the clamp is the last word on the limit: nothing assigns the limit on a path that follows the
+		// clamp's test (a "0 means unlimited" normalisation placed after it undoes the clamp for that input)
+		if clampAssign != nil && limitObj != nil {
+			fl := core.NewFlow(p, info, f.Decl.Body)
+			var clampIf *ast.IfStmt
+			for _, nd := range core.PathTo(f.Decl.Body, clampAssign) {
+				if is, ok := nd.(*ast.IfStmt); ok {
+					clampIf = is
+				}
+			}
+			raised := ast.Node(nil)
+			if clampIf != nil {
+				if lc, ok := fl.Locate(clampIf.Cond); ok {
+					fl.Walk(lc, nil, false, func(l core.Loc, nd ast.Node) bool {
+						if as, isAs := nd.(*ast.AssignStmt); isAs && as != clampAssign {
+							for _, lhs := range as.Lhs {
+								if core.ObjOf(info, lhs) == limitObj && raised == nil {
+									raised = as
+								}
+							}
+						}
+						return true
+					})
+				}
+			}
+			if raised != nil {
+				rB.Bad(f.Key+":limit-final-after-clamp", raised.Pos(), "the effective limit is assigned again after it was compared with the remaining cap budget: for the input this normalises (for example 'no per-call limit') the clamp did not apply and the selection exceeds the budget")
+			} else {
+				rB.Ok(f.Key+":limit-final-after-clamp", clampAssign.Pos(), "no assignment of the limit follows the clamp")
+			}
+		}
 	}
 	rL := c.Rule("C12.lockset", "index containers only under beacon.mu (shared with C11)", 100)
 	beaconLockset(c, rL)
